@@ -5,7 +5,7 @@ term lists generated from the current source (`Pymeeus.MoonData`, tools/gen_moon
 a coefficient in pymeeus/Moon.py regenerates the list and these `norm_num` evaluations are
 re-run against it.
 
-Domain: fractional years in [-2000, 4001]  ⇒  |t| = |k / (lunations per century)| ≤ 41,
+Domain: fractional years in [-2000, 4002]  ⇒  |t| = |k / (lunations per century)| ≤ 41,
 where `|E(t)| ≤ 28/25`.
 -/
 noncomputable section
@@ -107,8 +107,8 @@ theorem phase_k_eq (year : ℝ) (s : String) :
 theorem phaseOff_range (s : String) : 0 ≤ phaseOff s ∧ phaseOff s ≤ 3 / 4 := by
   unfold phaseOff; split_ifs <;> norm_num
 
-/-- years in [-2000, 4001] give `|t| ≤ 41` -/
-theorem phase_t_range {year : ℝ} (s : String) (h1 : -2000 ≤ year) (h2 : year ≤ 4001) :
+/-- years in [-2000, 4002] give `|t| ≤ 41` -/
+theorem phase_t_range {year : ℝ} (s : String) (h1 : -2000 ≤ year) (h2 : year ≤ 4002) :
     |phase_k year s / 1236.85| ≤ 41 := by
   rw [phase_k_eq]
   have hr := abs_le.mp (mround_sub_le ((year - 2000.0) * 12.3685))
@@ -172,7 +172,7 @@ theorem apsis_k_eq (year : ℝ) (s : String) :
 theorem apsisOff_range (s : String) : 0 ≤ apsisOff s ∧ apsisOff s ≤ 1 / 2 := by
   unfold apsisOff; split_ifs <;> norm_num
 
-theorem apsis_t_range {year : ℝ} (s : String) (h1 : -2000 ≤ year) (h2 : year ≤ 4001) :
+theorem apsis_t_range {year : ℝ} (s : String) (h1 : -2000 ≤ year) (h2 : year ≤ 4002) :
     |apsis_k year s / 1325.55| ≤ 41 := by
   rw [apsis_k_eq]
   have hr := abs_le.mp (mround_sub_le ((year - 1999.97) * 13.2555))
@@ -227,7 +227,7 @@ theorem nodes_k_eq (year : ℝ) (s : String) :
 theorem nodesOff_range (s : String) : 0 ≤ nodesOff s ∧ nodesOff s ≤ 1 / 2 := by
   unfold nodesOff; split_ifs <;> norm_num
 
-theorem nodes_t_range {year : ℝ} (s : String) (h1 : -2000 ≤ year) (h2 : year ≤ 4001) :
+theorem nodes_t_range {year : ℝ} (s : String) (h1 : -2000 ≤ year) (h2 : year ≤ 4002) :
     |nodes_k year s / 1342.23| ≤ 41 := by
   rw [nodes_k_eq]
   have hr := abs_le.mp (mround_sub_le ((year - 2000.05) * 13.4223))
@@ -290,7 +290,7 @@ theorem decl_k_eq (year : ℝ) : decl_k year = ((mround ((year - 2000.03) * 13.3
 theorem decl_k_eq0 (year : ℝ) : decl_k year = ((mround ((year - 2000.03) * 13.3686) : ℤ) : ℝ) + 0 := by
   rw [decl_k_eq, add_zero]
 
-theorem decl_t_range {year : ℝ} (h1 : -2000 ≤ year) (h2 : year ≤ 4001) :
+theorem decl_t_range {year : ℝ} (h1 : -2000 ≤ year) (h2 : year ≤ 4002) :
     |decl_k year / 1336.86| ≤ 41 := by
   rw [decl_k_eq]
   have hr := abs_le.mp (mround_sub_le ((year - 2000.03) * 13.3686))
